@@ -27,7 +27,20 @@ fn sizes(limit: usize) -> Vec<usize> {
     v
 }
 
+/// Signatures of common image formats: the bytes of a picture say nothing about what the SERVER said its type is.
+const MAGIC: &[&[u8]] = &[b"\x89PNG\r\n\x1a\n", b"\xff\xd8\xff\xe0", b"GIF89a", b"BM", b"RIFF\x24\x00\x00\x00WEBP", b"<svg", b"\x00\x00\x01\x00"];
+
 fn picture(r: &mut Rng, n: usize) -> Vec<u8> {
+    let mut p = picture_plain(r, n);
+    if r.chance(1, 3) {
+        let m = MAGIC[r.below(MAGIC.len())];
+        let k = m.len().min(p.len());
+        p[..k].copy_from_slice(&m[..k]);
+    }
+    p
+}
+
+fn picture_plain(r: &mut Rng, n: usize) -> Vec<u8> {
     if n > 200 && r.chance(1, 2) {
         let mut p = gen::gen_payload(r);
         p.resize(n, b'\n');
@@ -177,6 +190,14 @@ impl Property for C17 {
                         6 => {
                             art.embedded = Some((picture(&mut r, 100), None));
                             art.cover_ack = 50; // must not be asked at all
+                        }
+                        7 if i as usize >= per_round => {
+                            // one picture well beyond 16 MiB with an 8 MiB chunk limit (thorough: also beyond 64 MiB)
+                            let n = if cfg.tier == crate::util::Tier::Thorough && i as usize >= 2 * per_round { (64 << 20) + 77 } else { (17 << 20) + 5 };
+                            let mut pic: Vec<u8> = (0..n).map(|k| (k as u32).wrapping_mul(2654435761).to_le_bytes()[1]).collect();
+                            pic[..4].copy_from_slice(b"BIG!");
+                            art.embedded = Some((pic, Some("image/x-huge".into())));
+                            art.limit = 8 << 20;
                         }
                         _ => {
                             art.readpicture_supported = false;
@@ -399,7 +420,7 @@ impl Property for C17 {
     fn meta(&self, _cfg: &Cfg, _acc: &Acc) -> Meta {
         Meta {
             level: "exploration",
-            rule: "Client::album_art against the simulated server holding the picture: directed grid of chunk limits {1,2,64,4096,8192} x sizes {0,1,limit-1,limit,limit+1,2*limit,3*limit+7,5000,70000} x source {embedded, cover file reached through an empty readpicture reply or through ACK 5} x MIME present (incl. the empty string)/absent; in a third of the cases the same client has first loaded the art of 1-2 OTHER songs with different outcomes (nothing, cover only, embedded, errors), whose results are checked too; a quarter of the random multi-chunk loads have a continuation request refused with an ACK, which must be propagated; a third of the others get later chunks shorter than the first one (1..limit bytes); every other ACK code {1,2,3,4,50,52,56} on either command (must propagate), neither source, zero-byte pictures, albumart unknown; plus random sizes/limits; payloads incl. protocol look-alikes; 0-2 other callers and notifications running concurrently, chopped replies, read caps; oracle: returned bytes and MIME equal the stored picture / None / the server's error code, and the request lines seen by the server are readpicture|albumart <uri> <offset> in the documented fallback order with offsets starting at 0, strictly increasing, never skipping bytes, finitely many (the minimal sequence 0, limit, 2*limit, ... is counted separately); non-trivial = load with >=2 chunks; distinct by (limit, size class, source, mime, concurrency)".into(),
+            rule: "Client::album_art against the simulated server holding the picture: directed grid of chunk limits {1,2,64,4096,8192} x sizes {0,1,limit-1,limit,limit+1,2*limit,3*limit+7,5000,70000} x source {embedded, cover file reached through an empty readpicture reply or through ACK 5} x MIME present (incl. the empty string)/absent; a third of the pictures start with the signature of a common image format (the MIME type returned must still be exactly what the server said, or nothing); one picture of 17 MiB (thorough: 64 MiB) with an 8 MiB chunk limit; in a third of the cases the same client has first loaded the art of 1-2 OTHER songs with different outcomes (nothing, cover only, embedded, errors), whose results are checked too; a quarter of the random multi-chunk loads have a continuation request refused with an ACK, which must be propagated; a third of the others get later chunks shorter than the first one (1..limit bytes); every other ACK code {1,2,3,4,50,52,56} on either command (must propagate), neither source, zero-byte pictures, albumart unknown; plus random sizes/limits; payloads incl. protocol look-alikes; 0-2 other callers and notifications running concurrently, chopped replies, read caps; oracle: returned bytes and MIME equal the stored picture / None / the server's error code, and the request lines seen by the server are readpicture|albumart <uri> <offset> in the documented fallback order with offsets starting at 0, strictly increasing, never skipping bytes, finitely many (the minimal sequence 0, limit, 2*limit, ... is counted separately); non-trivial = load with >=2 chunks; distinct by (limit, size class, source, mime, concurrency)".into(),
             nontrivial_set: "nontrivial",
             assumptions: vec![
                 "well-behaved server: never a 0-byte chunk before the end, constant `size`".into(),
